@@ -39,8 +39,12 @@ RULE = ('specifier sets: 0..6 specifiers, operator uniform over == != >= > <= <,
         'pkg_config() calls dealt from all 18 combinations of auto_fill x libs None/[]/[..] x includes None/[]/[..] (every '
         'project has an auto_fill package with an explicitly empty list and one with nothing given), options with blanks / '
         'quotes / $ / ; / backquote, versions None / empty / given, public and private requirements on two stub packages and '
-        'on earlier packages with satisfied and unsatisfied specifier families split across the two lists; a case is one '
-        'package in one form (installed / -uninstalled), distinct by build.bfg text + package + form')
+        'on earlier packages with satisfied and unsatisfied specifier families split across the two lists; every configured '
+        'project then has its build directory renamed to a sibling path (a third of the unbuilt ones to a path with a blank) '
+        'without regeneration and is queried again at the new place in both forms (the built project is consumed again '
+        'there); the variables section of every written file (both forms) is compared with the model; a case is one '
+        'package in one form (installed / -uninstalled) at one place (as configured / moved), distinct by build.bfg text + '
+        'package + form + place')
 TRUSTED = ('variant detection: the two probes of the real simplify_specifiers (harness/c17.py detect_fixed / detect_eqv: '
            "'>=10,>=9' answers '>=10', '==1,==1.0' is simplified) select which pair (fixed, eqv) of the model is compared with "
            'the tree under test and whether finding C17-simplify-eq-string-identity applies to it',
@@ -49,7 +53,8 @@ TRUSTED = ('variant detection: the two probes of the real simplify_specifiers (h
            'R model of the pkgconf 1.8.1 .pc reader (Misc/PcFile.v), validated against /usr/bin/pkg-config on this run',
            'system stage: the reference semantics of a generated project in harness/c17sys.py (ref_pkg / SysProject.expect: what '
            'each package declares, closure over requirements as pkgconf 1.8.1 resolves them, install layout prefix/include and '
-           'prefix/lib/<subdir>); verspec membership for judging printed requirement entries')
+           'prefix/lib/<subdir>; after the build directory has been moved: library directories below the NEW place, source '
+           'directories unchanged); verspec membership for judging printed requirement entries')
 EXPLANATION = ''
 
 OPS = ['==', '!=', '>=', '>', '<=', '<']
@@ -527,6 +532,13 @@ def stage_w_pc(rep, rng, n):
     bd = Path('.').relpath(Path('pkgconfig'), prefix='${pcfiledir}', localize=False)
     calls.append(('pc.write_variable', [uw, False, ' ', 'builddir', [[[0, '${pcfiledir}/..']]]]))
     impl.append(impl_variable('builddir', bd))
+    # the -uninstalled variables section for a .pc directory 0..3 levels below the build directory: the builddir value is the
+    # real relpath(prefix='${pcfiledir}'); model Misc/PcFile.v uninstalled_vars (C17_uninstalled_relocatable)
+    for depth, pcd in enumerate(['.', 'pkgconfig', 'lib/pkgconfig', 'a b/c/pkgconfig']):
+        sd = Path('/src/pro ject', Root.absolute)
+        calls.append(('pc.variables', [uw, False, [], sd.suffix, depth]))
+        impl.append(impl_variable('srcdir', sd) + impl_variable('builddir', Path('.').relpath(
+            Path(pcd), prefix='${pcfiledir}', localize=False)))
     # plain-text fields (variable syntax) and requirement fields
     for _ in range(n // 4):
         s = gen.arg_string(rng, None, maxlen=8, classes=PC_CLASSES)
